@@ -3,10 +3,10 @@ package main
 import (
 	"bytes"
 	"fmt"
-	"strings"
 	"math/rand"
 	"os"
 	"sort"
+	"strings"
 
 	"github.com/thomasjungblut/go-sstables/sstables"
 )
@@ -30,16 +30,16 @@ type c03Case struct {
 	Probes  [][]byte    `json:"probes"`
 	Bounds  [][2][]byte `json:"bounds"`
 	// observations
-	IdxPay   [][]byte  `json:"-"`
-	Index    []byte    `json:"index"`
-	Data     []byte    `json:"data"`
-	Meta     metaOut   `json:"meta"`
-	OpenErr  string    `json:"open_err,omitempty"`
-	Gets     []getOut  `json:"gets"`
-	All      scanOut   `json:"all"`
-	Froms    []scanOut `json:"froms"`
-	Ranges   []scanOut `json:"ranges"`
-	Fatal    string    `json:"fatal,omitempty"`
+	IdxPay  [][]byte  `json:"-"`
+	Index   []byte    `json:"index"`
+	Data    []byte    `json:"data"`
+	Meta    metaOut   `json:"meta"`
+	OpenErr string    `json:"open_err,omitempty"`
+	Gets    []getOut  `json:"gets"`
+	All     scanOut   `json:"all"`
+	Froms   []scanOut `json:"froms"`
+	Ranges  []scanOut `json:"ranges"`
+	Fatal   string    `json:"fatal,omitempty"`
 }
 
 func (c *c03Case) Exec() {
@@ -391,6 +391,9 @@ func init() {
 			c := cs.(*c03Case)
 			if c.Loader != "map4" && c.Loader != "map20" {
 				return ""
+			}
+			if len(c.Gets) != len(c.Probes) {
+				return "" // the run did not get as far as the probes
 			}
 			w := 4
 			if c.Loader == "map20" {
